@@ -213,6 +213,33 @@ def check(case):
                 cls = ':within-25-percent:thin-version-balances:' + '+'.join(sorted(set(stress)))
         except Exception:
             pass
+    if bad and not cls and abs(imb) <= 0.05 * app and not any(l['kind'] == 'ins' for l in case['loads']):
+        # classification only (finding F-C01c): discretisation error at the coarse end of the documented rules.  The
+        # same antenna with every object divided into twice as many (equal) segments, sources and lumped loads kept at
+        # their positions: attributed to the discretisation only if the imbalance falls to less than half
+        try:
+            fine = {k_: v_ for k_, v_ in case.items()}
+            fine['objs'] = [dict(o_, n=2 * o_['n'], taper=0, tmin=None, tmax=None) if o_['type'] == 'wire' else dict(o_, n=2 * o_['n'])
+                            for o_ in case['objs']]
+            tf_, _ = gen.stand_in_topology(fine)
+            tb_, _ = gen.stand_in_topology(case)
+
+            def nearest(ix):
+                pt = topo.pulses[ix].pt
+                return int(np.argmin([np.linalg.norm(q.pt - pt) for q in tf_.pulses]))
+            fine['sources'] = [dict(s_, pulse=nearest(s_['_idx']), _idx=nearest(s_['_idx'])) for s_ in case['sources']]
+            fine['loads'] = [dict(l_, attach=[nearest(a_) for a_ in l_['attach']]) if 'attach' in l_ else dict(l_) for l_ in case['loads']]
+            m6 = common.solved(fine)
+            t6 = build.ref_topology(fine, m6)
+            I6 = np.array(m6.current)
+            pin6 = sum(0.5 * (v * np.conj(I6[s_['_idx']])).real for v, s_ in zip(V, fine['sources']))
+            app6 = sum(0.5 * abs(v * I6[s_['_idx']]) for v, s_ in zip(V, fine['sources']))
+            imb6 = pin6 - load_power(fine, m6, t6, I6) - pin6 * radiated_fraction(m6, ground, 32, 48)
+            bad6 = (-imb6 > 0.5 * abs(imb) / app * app6) if env == 'real' else (abs(imb6) > 0.5 * abs(imb) / app * app6)
+            if pin6 > 1e-6 * app6 and not bad6:
+                cls = ':converges-under-refinement'
+        except Exception:
+            pass
     if env == 'real' and -imb > margin and not cls:
         # classification only (finding F-C01b): the method solves the currents over an IDEAL ground and applies the
         # reflection coefficients of the real ground to the far field only.  For horizontal currents low over a poor
